@@ -34,9 +34,11 @@ func (fakeRegistrar) Version() gen.Version                                { retu
 
 type fakeResolver struct{}
 
-func (fakeResolver) Resolve(gen.Atom) ([]gen.Route, error)                       { return nil, gen.ErrNoRoute }
-func (fakeResolver) ResolveProxy(gen.Atom) ([]gen.ProxyRoute, error)             { return nil, gen.ErrNoRoute }
-func (fakeResolver) ResolveApplication(gen.Atom) ([]gen.ApplicationRoute, error) { return nil, gen.ErrNoRoute }
+func (fakeResolver) Resolve(gen.Atom) ([]gen.Route, error)           { return nil, gen.ErrNoRoute }
+func (fakeResolver) ResolveProxy(gen.Atom) ([]gen.ProxyRoute, error) { return nil, gen.ErrNoRoute }
+func (fakeResolver) ResolveApplication(gen.Atom) ([]gen.ApplicationRoute, error) {
+	return nil, gen.ErrNoRoute
+}
 
 type netOpts struct {
 	maxMessageSize int // of node B (the receiver)
@@ -126,7 +128,6 @@ func (nw *NetWorld) connect() {
 	})
 	ex.RunSetup()
 }
-
 
 // connectDialing declares (does not run) the threads of a connection set-up in which the initiator
 // fills the pool itself, the way network.connect + enp.Serve do: the first link is made by hsA/hsB, the
